@@ -732,7 +732,7 @@ def _rule_retention_store(ctx: Ctx, r: BatcherRoles, rule: str) -> None:
         if cls_ is not None:
             over = sorted(m.name for m in cls_.children if m.kind == 'function' and m.name in (
                 '__setitem__', '__delitem__', 'pop', 'popitem', 'setdefault', 'update', 'clear', '__getitem__', 'get', '__contains__', '__missing__'))
-            bases = [dotted(b) or '' for b in cls_.node.bases]
+            bases = [dotted(b.value if isinstance(b, ast.Subscript) else b) or '' for b in cls_.node.bases]
             if over or not any(b.split('.')[-1] in ('dict', 'Dict', 'OrderedDict') for b in bases):
                 ctx.violation(rule, f'self.{r.ret} = {norm(v)}: {cls_.name}({", ".join(bases)}) overrides {over}', where,
                               'the retention cache is a mapping with behaviour of its own (eviction by size, forgiving deletes ...): a key that is '
@@ -1123,7 +1123,12 @@ def c10(ctx: Ctx) -> None:
     def _same_name_binding(n_):
         return bool(n_.meta.get('inlined_param')) and isinstance(n_.meta.get('value'), ast.Name) and n_.meta['value'].id == n_.meta['name']
     argdefs = [n for n in gp.nodes if n.kind == 'store_name' and n.meta['name'] == r.args_var and not _same_name_binding(n)]
-    rebinds = [n for n in gp.nodes if n.kind == 'store_name' and n.meta['name'] == r.tasks_param and not _same_name_binding(n)]
+    def _plain_copy(n_):
+        # `tasks = list(tasks)` / `tuple(tasks)`: the same entries in the same order
+        v_ = n_.meta.get('value')
+        return isinstance(v_, ast.Call) and isinstance(v_.func, ast.Name) and v_.func.id in ('list', 'tuple') and len(v_.args) == 1 and not v_.keywords \
+            and isinstance(v_.args[0], ast.Name) and v_.args[0].id == r.tasks_param
+    rebinds = [n for n in gp.nodes if n.kind == 'store_name' and n.meta['name'] == r.tasks_param and not _same_name_binding(n) and not _plain_copy(n)]
     for rb_ in rebinds:
         ctx.violation('C10-R2', f'{norm(rb_.meta.get("stmt") or rb_.ast)[:90]}', gp.loc(rb_),
                       'the batch is re-built (filtered) before it is handed to the batch function: it can become empty',
